@@ -20,6 +20,21 @@ CHECKS = {
              "g++/ASan/UBSan; harness c15_rs.cpp and checks/c15.py",
         technique="Lean 4 proof over an executable model + exhaustive/boundary differential correspondence",
         design="§5 C15"),
+    "C01": dict(
+        text="Lean 4 theorems about the acceptor model of mutex::lock / try_lock / unlock on top of the scheduler events (any number of "
+             "threads and mutexes, timeouts and interrupts at any point): lock()/try_lock() return 0 exactly when the caller is the owner and a "
+             "failed lock leaves the caller out of the wait queue; the owner word changes only by a successful CAS from free or by the unlock "
+             "hand-off on behalf of the current owner, to the head of the wait queue, whose wake-up must be the next event; by an inductive "
+             "invariant over all accepted traces a thread is in at most one wait queue exactly while it sleeps there, and a free mutex has no "
+             "thread parked inside lock() on it (never left stuck). Tied to the code by generated multi-thread programs run on the real "
+             "runtime on a virtual clock with the acceptor validating every owner CAS, hand-off, park, wake-up and return value and the real "
+             "owner word compared at every quiescence point; an independent occupancy / stuck-on-free-mutex oracle supplies failing programs",
+        note="trusted: Lean kernel + 3 standard axioms; single vCPU: the segments between context switches are atomic, so the spinlock "
+             "protecting the slow path and the cross-vCPU races are NOT exercised or modelled here (sequentially consistent interleavings of "
+             "whole segments only); spinlock / ticket / queued spinlock exclusion between OS threads is not yet claimed; recursive mutex depth "
+             "is exercised by the harness, its counter has no theorem",
+        technique="Lean 4 inductive invariant over an acceptor of hook/API event traces + deterministic simulation of the real runtime",
+        design="§5 C01"),
     "C04": dict(
         text="Lean 4 theorems about an acceptor model of prepare_usleep / resume_threads / prelocked_thread_interrupt / thread_interrupt / "
              "thread_yield / set_error_number (one event per hook point or API return, any number of threads): in every reachable state a "
